@@ -244,7 +244,7 @@ PROPS.update({
               lambda c, io: OB.c02(c, io, exact=c.meta.get("exact", False),
                                     idem_sessions=c.meta.get("stream") in WELLFORMED_STREAMS + ("pano", "panr")), [],
               proj_name="C02: execute_start and check events with verdicts per session", exhaustive=True),
-    "C03": mk("C03", st(bu=4, bud=3, buc=3, k1=1), 3000, 30000,
+    "C03": mk("C03", st(bu=4, bud=3, buc=3, buf=2, k1=1), 3000, 30000,
               proj_lines(("op ", "ev execute_", "ev schedule_task", "out ", "abort ", "done", "fs ", "cl ", "known ", "bad-op")), OB.c03, [],
               proj_name="C03: executions, scheduling, outputs, contents", known_match=known_if_model_agrees("K1", OB.c03, pat_partial_topdown_before_bu), exhaustive=True),
     "C04": mk("C04", st(bu=3, bud=3, buc=2, buf=1, pan=1, panr=1, rol=1, ero=1, hid=1, ovl=1), 3000, 30000,
